@@ -6,7 +6,8 @@ import ast
 from ..model import (walk, dotted, call_name, kwarg, unparse, short, UNKNOWN,
                      root_name, AnalysisError, calls_in, stores_in_target)
 from ..cfg import cfg_of
-from ..flow import Deps, guards, must_pass, loop_slice, Exploration
+from ..flow import (Deps, guards, must_pass, loop_slice, Exploration,
+                    reaching_defs)
 from .. import idioms as I
 
 COMP   = ('utils/component.py', 'BaseComponent')
@@ -41,6 +42,9 @@ def _states(prog, f, e):
 def route_table(prog):
     """rows: {'in': [(cls, state, queue, cb name, func, call)],
               'out': [(cls, state, queue, func, call)]}"""
+    cached = getattr(prog, '_c05_route_table', None)
+    if cached is not None:
+        return cached
     rows = {'in': [], 'out': []}
     for c, f in all_methods(prog):
         if f.module.rel == 'utils/component.py':
@@ -65,6 +69,10 @@ def route_table(prog):
                                         '`%s`' % (f.where, short(call, 60)))
                 for s in st:
                     rows['out'].append((c, s, q, f, call))
+    try:
+        prog._c05_route_table = rows
+    except AttributeError:
+        pass
     return rows
 
 
@@ -693,9 +701,28 @@ def r05_4b(prog, rep, rid='R05.4b'):
                            stop_edge=stop_edge)
     exh = count(gh, fh, hv, gh.entry.id)
     inner = {t.state for t in exh.terminals if t.node == gh.exit.id}
+    if not inner:
+        raise AnalysisError('UNRECOGNISED-IDIOM %s: _handle_task has no '
+                            'normal exit' % fh.where)
     if len(inner) != 1:
-        raise AnalysisError('UNRECOGNISED-IDIOM %s: _handle_task hands on %s '
-                            'times depending on the path' % (fh.where, inner))
+        # the number of hand-ons depends on the path through _handle_task
+        # (each loop body is entered at most once by the exploration: a
+        # hand-on inside a loop shows as {0, 1}): some path does not hand the
+        # task on exactly once
+        wrong = [t for t in exh.terminals if t.node == gh.exit.id and
+                 t.state != 1]
+        rep.bad(rid, fh, 'tmgr-output:_handle_task hand-ons=%s'
+                % sorted(inner),
+                '%s hands its task on %s time(s) depending on the path (a '
+                'hand-on inside a loop runs once per iteration, zero times '
+                'without one): a task with output directives is not handed '
+                'on exactly once' % (fh.qual, ' / '.join(
+                    str(x) for x in sorted(inner))), fh.loc(),
+                history='a DONE task with two TRANSFER output directives is '
+                'published as final twice; one whose directive list expands '
+                'to nothing never becomes final',
+                path=exh.literals(wrong[0])[-5:] if wrong else None)
+        return
     k = inner.pop()
     loops = [n for n in g.nodes if n.kind == 'for' and any(
         call_name(c) == 'self._handle_task' for c in calls_in(n.ast))]
@@ -901,6 +928,103 @@ def _r05_5_text(v, mapping):
     return unparse(Sub().visit(v))
 
 
+def _r05_5_final_tests(prog, K, f, g, failed, canceled):
+    """[(test node, label of the edge taken for FAILED / CANCELED)]: the
+    membership tests of `state` against exactly {FAILED, CANCELED}, in either
+    polarity (`if state in [..]: <special case>` or the early-return form
+    `if state not in [..]: return super().advance(..)`)"""
+    out = []
+    for n in g.nodes:
+        if n.kind == 'test' and isinstance(n.ast, ast.Compare) and \
+                len(n.ast.ops) == 1 and \
+                isinstance(n.ast.ops[0], (ast.In, ast.NotIn)) and \
+                unparse(n.ast.left) == 'state':
+            v = prog.fold(f.module, n.ast.comparators[0], K)
+            if isinstance(v, (list, tuple, set, frozenset)) and \
+                    set(v) == {failed, canceled}:
+                out.append((n, 'T' if isinstance(n.ast.ops[0], ast.In)
+                            else 'F'))
+    return out
+
+
+def _r05_5_super_calls(node_ast):
+    if node_ast is None or isinstance(node_ast, (ast.FunctionDef,
+                                                 ast.ClassDef)):
+        return []
+    return [c for c in calls_in(node_ast) if 'super()' in call_name(c) and
+            call_name(c).endswith('.advance')]
+
+
+def _r05_5_paths(prog, f, g, T, lab):
+    """the delegations to BaseComponent.advance on the paths which leave the
+    test T by the edge `lab`: [(number of delegations on the path, [(call,
+    publish, push, things and state passed on)])] per path that returns; the
+    flags are evaluated over the assignments on the path: True / False (a
+    constant), 'param' (the caller's value), '?' (anything else)"""
+    base = prog.find_method(prog.cls(*COMP), 'advance')
+    bpos = [p for p in base.params if p != 'self']
+    a = base.node.args
+    names = [x.arg for x in a.posonlyargs + a.args]
+    dflt = {}
+    for x, d in zip(names[len(names) - len(a.defaults):], a.defaults):
+        dflt[x] = d
+    for x, d in zip(a.kwonlyargs, a.kw_defaults):
+        if d is not None:
+            dflt[x.arg] = d
+
+    def arg(call, k):
+        return kwarg(call, k, bpos.index(k) if k in bpos else None)
+
+    def flag(call, k, st):
+        e = arg(call, k)
+        if e is None:
+            e = dflt.get(k)
+        if isinstance(e, ast.Constant) and isinstance(e.value, bool):
+            return e.value
+        if isinstance(e, ast.Name) and e.id in st:
+            return st[e.id]
+        return '?'
+
+    def transfer(node, edge, st):
+        if node.id == T.id:
+            return st if edge.label == lab else None
+        if edge.label == 'exc' or node.kind != 'stmt' or node.ast is None:
+            return st
+        pub, psh, calls = st
+        cur = {'publish': pub, 'push': psh}
+        for c in _r05_5_super_calls(node.ast):
+            passed = all(arg(c, k) is not None and unparse(arg(c, k)) == k
+                         for k in ('things', 'state'))
+            calls = calls + ((id(c), flag(c, 'publish', cur),
+                              flag(c, 'push', cur), passed),)
+        n = node.ast
+        targets = n.targets if isinstance(n, ast.Assign) else \
+            [n.target] if isinstance(n, (ast.AugAssign, ast.AnnAssign)) else []
+        for name in [x for t in targets for x in stores_in_target(t)]:
+            if name not in cur:
+                continue
+            v = getattr(n, 'value', None)
+            if isinstance(n, ast.Assign) and len(targets) == 1 and \
+                    isinstance(targets[0], ast.Name) and \
+                    isinstance(v, ast.Constant) and isinstance(v.value, bool):
+                cur[name] = v.value
+            elif isinstance(n, ast.Assign) and len(targets) == 1 and \
+                    isinstance(v, ast.Name) and v.id == name:
+                pass
+            else:
+                cur[name] = '?'
+        return (cur['publish'], cur['push'], calls)
+
+    ex = Exploration(g, T.id, ('param', 'param', ()), transfer)
+    byid = {id(c): c for c in calls_in(f.node)}
+    out = []
+    for t in ex.terminals:
+        if t.node != g.exit.id:
+            continue
+        out.append([(byid[c[0]],) + c[1:] for c in t.state[2]])
+    return out
+
+
 def r05_5(prog, rep, rid='R05.5'):
     rep.rule(rid, 'advance() to FAILED/CANCELED records target_state and is '
              'always published, never pushed; the agent side hands the full '
@@ -914,44 +1038,38 @@ def r05_5(prog, rep, rid='R05.5'):
             raise AnalysisError('%s.advance missing' % K.name)
         rep.saw(f)
         g = cfg_of(f)
-        smap = I.stmt_node_map(g)
-        tests = []
-        for n in g.nodes:
-            if n.kind == 'test' and isinstance(n.ast, ast.Compare) and \
-                    len(n.ast.ops) == 1 and isinstance(n.ast.ops[0], ast.In) \
-                    and unparse(n.ast.left) == 'state':
-                v = prog.fold(f.module, n.ast.comparators[0], K)
-                if isinstance(v, (list, tuple, set, frozenset)) and \
-                        set(v) == {failed, canceled}:
-                    tests.append(n)
+        tests = _r05_5_final_tests(prog, K, f, g, failed, canceled)
         rep.check(len(tests) == 1, rid, f, '%s.advance special-cases exactly '
                   'FAILED and CANCELED' % K.name, construct='%s:test' % K.name,
                   message='%s.advance does not test `state in [FAILED, '
                   'CANCELED]`' % K.name, loc=f.loc())
         if len(tests) != 1:
             continue
-        T = tests[0]
-        want = {'publish': True, 'push': False}
-        got = {}
+        T, lab = tests[0]
+        other = 'F' if lab == 'T' else 'T'
         keys = set()
         for n in g.stmt_nodes():
-            if n.kind != 'stmt' or (T.id, 'T') not in guards(g, n.id):
+            if n.kind != 'stmt' or (T.id, lab) not in guards(g, n.id):
                 continue
             if isinstance(n.ast, (ast.FunctionDef, ast.ClassDef)):
                 continue
-            if isinstance(n.ast, ast.Assign):
-                for t in n.ast.targets:
-                    if isinstance(t, ast.Name) and t.id in want and \
-                            isinstance(n.ast.value, ast.Constant):
-                        got[t.id] = n.ast.value.value
             keys |= _r05_5_recorded(prog, K, f, n.ast)
-        rep.check(got == want, rid, f, '%s.advance forces publish=True, '
+        # the flags BaseComponent.advance receives on every path of a
+        # FAILED / CANCELED advance
+        fpaths = _r05_5_paths(prog, f, g, T, lab)
+        got = sorted({(c[1], c[2]) for p in fpaths for c in p}, key=str)
+        okf = bool(fpaths) and all(len(p) >= 1 for p in fpaths) and \
+            got == [(True, False)]
+        rep.check(okf, rid, f, '%s.advance forces publish=True, '
                   'push=False for FAILED/CANCELED' % K.name,
                   construct='%s:flags' % K.name, message='%s.advance does not '
                   'force publish=True and push=False for FAILED/CANCELED '
-                  '(found %s): a failed task is pushed into a queue nobody '
-                  'reads, or its final state is never published'
-                  % (K.name, got), loc=f.loc(),
+                  '(BaseComponent.advance receives (publish, push) = %s on '
+                  '%d path(s), %d path(s) without delegation): a failed '
+                  'task is pushed into a queue nobody reads, or its final '
+                  'state is never published'
+                  % (K.name, got, len(fpaths),
+                     len([p for p in fpaths if not p])), loc=f.loc(),
                   history='a task fails in the scheduler: the client never '
                   'learns about it')
         rep.check(('target_state', 'state') in keys, rid, f, '%s.advance '
@@ -969,20 +1087,17 @@ def r05_5(prog, rep, rid='R05.5'):
                       "task manager (control='tmgr_pending', $all=True): only "
                       'the bare state is published and the exception / exit '
                       'code never reach the client', loc=f.loc())
-        # the super call passes the (possibly forced) flags on
-        sup = [c for c in calls_in(f.node) if 'super()' in call_name(c) and
-               call_name(c).endswith('.advance')]
-        bpos = [p for p in prog.find_method(prog.cls(*COMP), 'advance').params
-                if p != 'self']
-        oks = len(sup) == 1 and all(
-            kwarg(sup[0], k, bpos.index(k) if k in bpos else None) is not None
-            and unparse(kwarg(sup[0], k, bpos.index(k) if k in bpos
-                              else None)) == k
-            for k in ('publish', 'push', 'state', 'things'))
+        # every path delegates once, passes things / state on and - for the
+        # other states - the caller's flags
+        opaths = _r05_5_paths(prog, f, g, T, other)
+        oks = bool(opaths) and all(
+            len(p) == 1 and p[0][3] for p in fpaths + opaths) and all(
+            (p[0][1], p[0][2]) == ('param', 'param') for p in opaths)
         rep.check(oks, rid, f, '%s.advance delegates with the adjusted flags'
                   % K.name, construct='%s:super' % K.name, message='%s.'
                   'advance does not pass things/state/publish/push on to '
-                  'BaseComponent.advance' % K.name, loc=f.loc())
+                  'BaseComponent.advance exactly once on every path' % K.name,
+                  loc=f.loc())
 
 
 # ------------------------------------------------------------------------------
@@ -3197,6 +3312,685 @@ def r05_13(prog, rep, rid='R05.13'):
 
 
 # ------------------------------------------------------------------------------
+# R05.14  named sub-queues: producer and consumer agree
+#
+# A zmq queue serves named sub-queues: `put(things, qname=X)` is only seen by
+# `get(qname=X)`, and both default to the same unnamed sub-queue.  The proxy
+# queue between client and agent is shared by all pilots of a session: the
+# agent reads the sub-queue of its pilot, the client the sub-queue of the
+# session.  A hand-on which pushes to a (state, queue) row whose consumers all
+# read a named sub-queue must therefore name one (and must not name one when
+# the consumers read the unnamed sub-queue), and where both names can be
+# traced to the session id or the pilot id they must be of the same kind.
+#
+def _qname_of_row(call):
+    q = kwarg(call, 'qname', 3)
+    if q is None or (isinstance(q, ast.Constant) and q.value is None):
+        return None
+    return q
+
+
+def _attr_origin(prog, K, e, depth=0):
+    """follow `self.<attr>` to the value it is assigned from (only when the
+    classes of the mro assign it exactly once)"""
+    if depth > 3 or K is None:
+        return e
+    ch = dotted(e)
+    if not ch or not ch.startswith('self.') or ch.count('.') != 1:
+        return e
+    vals = []
+    for c in prog.mro(K):
+        for m in c.methods.values():
+            for n in walk(m.node):
+                if isinstance(n, ast.Assign):
+                    for t in n.targets:
+                        if dotted(t) == ch:
+                            vals.append(n.value)
+    if len(vals) != 1:
+        return e
+    return _attr_origin(prog, K, vals[0], depth + 1)
+
+
+def _qname_kind(prog, K, e):
+    """'session' / 'pilot' when the sub-queue name is - by definition - the
+    id of the session (`<session>.uid`, `cfg.sid`) or of the pilot
+    (`cfg.pid`, `<pilot>['uid']`); None when it cannot be traced"""
+    o = _attr_origin(prog, K, e)
+    ch = dotted(o)
+    if ch:
+        parts = ch.split('.')
+        if parts[-1] == 'sid' and len(parts) > 1:
+            return 'session'
+        if parts[-1] == 'pid' and len(parts) > 1:
+            return 'pilot'
+        if parts[-1] == 'uid' and len(parts) > 1 and \
+                parts[-2].lstrip('_') == 'session':
+            return 'session'
+    return None
+
+
+def _qname_binding(prog, K, f, call, pos_of, push_pos=None):
+    """(expression or None, complete): the sub-queue name a direct hand-on
+    passes.  A parameter of the enclosing method that defaults to None is
+    followed to the calls of that method in the class which can push: the
+    name is missing if one of them leaves the parameter unbound"""
+    q = kwarg(call, 'qname', pos_of)
+    if q is None or (isinstance(q, ast.Constant) and q.value is None):
+        return None, True
+    if not (isinstance(q, ast.Name) and q.id in f.params):
+        return q, True
+    a = f.node.args
+    names = [x.arg for x in a.posonlyargs + a.args]
+    dflt = dict(zip(names[len(names) - len(a.defaults):], a.defaults))
+    d = dflt.get(q.id)
+    if d is None or not (isinstance(d, ast.Constant) and d.value is None):
+        return q, True
+    for n in walk(f.node):
+        if isinstance(n, ast.Name) and n.id == q.id and \
+                isinstance(n.ctx, ast.Store):
+            # re-bound in the method (`if not qname: qname = ...`)
+            return q, True
+    pp = [x for x in names if x != 'self']
+    pushp = kwarg(call, 'push', push_pos)
+    for c in prog.mro(K) + [k for k in prog.subclasses(K) if k is not K]:
+        for m in c.methods.values():
+            for cc in calls_in(m.node, nested=True):
+                if call_name(cc) != 'self.' + f.name:
+                    continue
+                h = prog.resolve_call(m, cc, K)
+                if h is not f:
+                    continue
+                if isinstance(pushp, ast.Name) and pushp.id in pp:
+                    b = kwarg(cc, pushp.id, pp.index(pushp.id))
+                    if isinstance(b, ast.Constant) and b.value is False:
+                        continue
+                b = kwarg(cc, q.id, pp.index(q.id))
+                if b is None or (isinstance(b, ast.Constant) and
+                                 b.value is None):
+                    return None, False
+    return q, True
+
+
+def r05_14(prog, rep, rid='R05.14'):
+    rep.rule(rid, 'a pushing hand-on names a sub-queue (qname) exactly when '
+             'the consumers of its (state, queue) row read a named sub-queue, '
+             'and both name it after the same entity (session / pilot)',
+             minimum=30)
+    rows = route_table(prog)
+    final = set(prog.const('states.py', 'FINAL'))
+    comp = prog.cls(*COMP)
+    n_named = 0
+    for c, f in all_methods(prog):
+        if comp not in prog.mro(c) or f.module.rel == 'utils/component.py':
+            continue
+        for call in calls_in(f.node, nested=True):
+            if not I.is_handon(call):
+                continue
+            h = prog.resolve_call(f, call, c)
+            if h is None or 'qname' not in h.params or \
+                    'push' not in h.params:
+                # a wrapper: the hand-on inside of it is the site
+                continue
+            hp = [x for x in h.params if x != 'self']
+            push = kwarg(call, 'push', hp.index('push'))
+            if push is None or (isinstance(push, ast.Constant) and
+                                not push.value):
+                continue
+            st = pushed_state(prog, f, call, rows, c)
+            if st == 'FINAL' or st in final:
+                continue
+            concrete = [k for k in prog.subclasses(c)] or [c]
+            for k in concrete:
+                outs = [r for r in class_rows(prog, rows, k, 'out')
+                        if r[1] not in final and (st is None or r[1] == st)]
+                cons = [i for r in outs for i in rows['in']
+                        if i[1] == r[1] and i[2] == r[2]]
+                if not cons:
+                    continue
+                named = {_qname_of_row(i[5]) is not None for i in cons}
+                if len(named) != 1:
+                    rep.info(rid, f, 'consumers of %s disagree about the '
+                             'sub-queue' % sorted({(i[1], i[2])
+                                                   for i in cons}), f.loc(call))
+                    continue
+                named = named.pop()
+                q, complete = _qname_binding(prog, k, f, call,
+                                             hp.index('qname'),
+                                             hp.index('push'))
+                where = ', '.join(sorted({'%s.%s (%s, %s)' % (
+                    i[0].name, i[4].name, i[1], i[2]) for i in cons}))
+                if named:
+                    n_named += 1
+                ok = (q is not None) == named
+                msg = None
+                if not ok and named:
+                    msg = ('%s pushes tasks with `%s` to the unnamed '
+                           'sub-queue%s, but the consumer%s %s read%s a named '
+                           'sub-queue (qname=%s): the tasks stay in the queue '
+                           'and never reach a final state' % (
+                               f.qual, short(call, 60), '' if complete else
+                               ' (a caller leaves the qname parameter at its '
+                               'default None)',
+                               '' if len(cons) == 1 else 's', where,
+                               's' if len(cons) == 1 else '',
+                               '/'.join(sorted({unparse(_qname_of_row(i[5]))
+                                                for i in cons}))))
+                elif not ok:
+                    msg = ('%s pushes tasks with `%s` to the sub-queue `%s`, '
+                           'but the consumer%s %s read%s the unnamed sub-queue'
+                           ': the tasks stay in the queue and never reach a '
+                           'final state' % (
+                               f.qual, short(call, 60), unparse(q),
+                               '' if len(cons) == 1 else 's', where,
+                               's' if len(cons) == 1 else ''))
+                else:
+                    if named:
+                        pk = _qname_kind(prog, k, q)
+                        ck = {_qname_kind(prog, i[0], _qname_of_row(i[5]))
+                              for i in cons}
+                        if pk is not None and None not in ck and ck != {pk}:
+                            ok = False
+                            msg = ('%s pushes tasks with `%s` to the '
+                                   'sub-queue named after the %s (`%s`), but '
+                                   'the consumer %s reads the sub-queue named '
+                                   'after the %s: the tasks never arrive and '
+                                   'never reach a final state' % (
+                                       f.qual, short(call, 60), pk,
+                                       unparse(q), where, '/'.join(sorted(ck))))
+                rep.check(ok, rid, f, '`%s` in %s and the consumer %s agree '
+                          'about the sub-queue (%s)' % (
+                              short(call, 40), k.name, where,
+                              'named' if named else 'unnamed'),
+                          construct=call, message=msg, loc=f.loc(call),
+                          history='any task that passes this hand-on (for the '
+                          'proxy queue: every task that was executed, or '
+                          'every task sent to the pilot) is put where nobody '
+                          'gets it: it never reaches a final state')
+    if n_named < 2:
+        raise AnalysisError('R05.14: only %d pushing hand-on(s) to a named '
+                            'sub-queue found (client -> agent and agent -> '
+                            'client are expected)' % n_named)
+
+
+# ------------------------------------------------------------------------------
+# R05.15  client scheduler: one outcome per task (R12.2 re-evaluated)
+#
+# The client side scheduler is the first component a task passes after
+# `submit_tasks`.  Each task of a bulk it receives (and each task it takes out
+# of its pools later) must leave the iteration that looks at it with exactly
+# one outcome: handed on, or kept in a pool which is rooted at the component
+# (`self._early[pid]`, the wait pool) - a task appended to a temporary
+# (`self._early.get(pid, list()).append(task)`: the default list is never
+# stored) or taking a branch without outcome never reaches a final state, a
+# task with two outcomes is forwarded twice.  The C12 module decides this by
+# exploring one iteration of every task loop of `work`, RoundRobin /
+# Backfilling `_work` and `_schedule_tasks`; the same obligations are the
+# client scheduler's part of "every task accepted by a task manager reaches
+# exactly one final state".
+#
+def r05_15(prog, rep, rid='R05.15'):
+    from . import c12
+    err = None
+    try:
+        c12.r12_2(prog, rep, rid=rid)
+    except AnalysisError as e:
+        err = e
+    rep.rule(rid, 'client scheduler: every iteration of a task loop has '
+             'exactly one outcome for the task (handed on xor kept in a pool '
+             'rooted at the component), and every local outcome list is '
+             'handed on after the loop (R12.2 re-evaluated)', minimum=12)
+    if err:
+        raise err
+
+
+# ------------------------------------------------------------------------------
+# R05.16  things collected in a local container leave the method
+#
+# A work routine sorts the things of a bulk into local lists / dicts of lists
+# (`to_schedule[prio].append(task)`, `to_raptor[name].append(task)`) and hands
+# each of them on after the loop.  A thing that sits in such a local container
+# when the method returns is gone: nobody holds a reference to it any more.
+# So on every normal path from the statement that collects a thing to the
+# return the container is read again (iterated, handed on, put into a queue,
+# stored in a pool, returned) - unless the path leaves a test of that very
+# container by its `empty` edge, which cannot be taken once something was
+# collected.
+#
+def _smap(g):
+    m = getattr(g, '_c05_smap', None)
+    if m is None:
+        m = I.stmt_node_map(g)
+        try:
+            g._c05_smap = m
+        except AttributeError:
+            pass
+    return m
+
+
+def _is_log_stmt(a):
+    return isinstance(a, ast.Expr) and isinstance(a.value, ast.Call) and \
+        (dotted(a.value.func) or '').startswith(('self._log.', 'self._prof.'))
+
+
+def _collect_base(recv):
+    """name of the local container behind the receiver of an append:
+    C, C[k], C.setdefault(k, ..), C[k][j]"""
+    e = recv
+    while True:
+        if isinstance(e, ast.Subscript):
+            e = e.value
+        elif isinstance(e, ast.Call) and isinstance(e.func, ast.Attribute) \
+                and e.func.attr == 'setdefault':
+            e = e.func.value
+        else:
+            break
+    return e.id if isinstance(e, ast.Name) else None
+
+
+def _collects(a):
+    """[(container name, collected expression, ast nodes that make up the
+    collecting access)] of a simple statement"""
+    out = []
+    if a is None or isinstance(a, (ast.FunctionDef, ast.ClassDef)):
+        return out
+    for c in calls_in(a):
+        if isinstance(c.func, ast.Attribute) and \
+                c.func.attr in ('append', 'add', 'extend') and \
+                len(c.args) == 1 and not c.keywords:
+            base = _collect_base(c.func.value)
+            if base is not None:
+                out.append((base, c.args[0], c.func.value))
+    if isinstance(a, ast.Assign) and len(a.targets) == 1 and \
+            isinstance(a.targets[0], ast.Subscript):
+        base = _collect_base(a.targets[0].value)
+        if base is not None:
+            out.append((base, a.value, a.targets[0]))
+    if isinstance(a, ast.AugAssign) and isinstance(a.op, ast.Add):
+        base = _collect_base(a.target)
+        if base is not None:
+            out.append((base, a.value, a.target))
+    return out
+
+
+def _fresh_containers(f):
+    """the locals of f whose every assignment creates an empty container"""
+    vals = {}
+
+    def note(t, v):
+        for name in stores_in_target(t):
+            vals.setdefault(name, []).append(
+                v if isinstance(t, ast.Name) else None)
+    for n in walk(f.node):
+        if isinstance(n, ast.Assign):
+            for t in n.targets:
+                note(t, n.value)
+        elif isinstance(n, (ast.AugAssign, ast.AnnAssign, ast.For,
+                            ast.comprehension, ast.NamedExpr)):
+            note(n.target, None)
+        elif isinstance(n, ast.withitem) and n.optional_vars is not None:
+            note(n.optional_vars, None)
+
+    def empty(v):
+        if v is None:
+            return False
+        if _is_empty_ctor(v):
+            return True
+        if isinstance(v, ast.Call) and not v.keywords:
+            fn = (dotted(v.func) or '').split('.')[-1]
+            if fn == 'dict' and not v.args:
+                return True
+            if fn == 'defaultdict' and len(v.args) == 1 and \
+                    dotted(v.args[0]) in ('list', 'set', 'dict'):
+                return True
+        return False
+    return {name for name, vs in vals.items()
+            if all(empty(v) for v in vs) and name not in f.params}
+
+
+def _strip_listy(e):
+    """the collection behind list(x), sorted(x, ..), ru.as_list(x),
+    enumerate(x), x.values(), x.items(), x[..]"""
+    while True:
+        if isinstance(e, ast.Call) and e.args and (
+                dotted(e.func) in ('list', 'sorted', 'reversed', 'enumerate',
+                                   'tuple') or
+                (dotted(e.func) or '').endswith('.as_list')):
+            e = e.args[0]
+        elif isinstance(e, ast.Call) and isinstance(e.func, ast.Attribute) \
+                and e.func.attr in ('values', 'items', 'copy') and \
+                not e.args:
+            e = e.func.value
+        elif isinstance(e, ast.Subscript):
+            e = e.value
+        elif isinstance(e, (ast.List, ast.Tuple)) and len(e.elts) == 1 and \
+                isinstance(e.elts[0], ast.Name):
+            # tasks = [tasks]
+            e = e.elts[0]
+        else:
+            return e
+
+
+def _is_work_cb(prog, rows, c, f):
+    for r in rows['in']:
+        if r[3] == 'self.' + f.name and \
+                (r[0] in prog.mro(c) or c in prog.mro(r[0])):
+            return True
+    return False
+
+
+def _received(prog, rows, c, f, g, nid, name, depth=0):
+    """the local `name` at cfg node nid is (an element of) what this method
+    received and now owns: the bulk parameter of a registered work callback,
+    or what a queue below self returned from `get()` / `get_nowait()`"""
+    if depth > 4:
+        return False
+    defs = reaching_defs(g, name, nid)
+    if not defs:
+        return name in f.params and _is_work_cb(prog, rows, c, f)
+    for dn, v in defs:
+        if dn.kind == 'for':
+            src = dn.ast.iter
+        elif v is None:
+            src = getattr(dn.ast, 'value', None)
+            if isinstance(dn.ast, ast.AugAssign) or src is None:
+                return False
+        else:
+            src = v
+        src = _strip_listy(src)
+        if isinstance(src, ast.Name):
+            if src.id == name and dn.kind != 'for':
+                # tasks = ru.as_list(tasks)
+                if not (name in f.params and
+                        _is_work_cb(prog, rows, c, f)):
+                    return False
+                continue
+            if not _received(prog, rows, c, f, g, dn.id, src.id, depth + 1):
+                return False
+        elif isinstance(src, ast.Call) and \
+                isinstance(src.func, ast.Attribute) and \
+                src.func.attr in ('get', 'get_nowait') and not src.args and \
+                root_name(src.func.value) == 'self':
+            continue
+        else:
+            return False
+    return True
+
+
+def _empty_edges(g, name):
+    """[(test node id, label)]: edges taken only when the container is
+    empty: `if C` / `if len(C)` / `if len(C) > 0` by F, `if len(C) == 0` by T
+    (`not` is resolved by the cfg)"""
+    def is_len(e):
+        return isinstance(e, ast.Call) and dotted(e.func) == 'len' and \
+            len(e.args) == 1 and isinstance(e.args[0], ast.Name) and \
+            e.args[0].id == name
+    out = []
+    for n in g.nodes:
+        if n.kind != 'test':
+            continue
+        a = n.ast
+        if (isinstance(a, ast.Name) and a.id == name) or is_len(a):
+            out.append((n.id, 'F'))
+        elif isinstance(a, ast.Compare) and len(a.ops) == 1 and \
+                is_len(a.left) and \
+                isinstance(a.comparators[0], ast.Constant) and \
+                a.comparators[0].value == 0:
+            if isinstance(a.ops[0], (ast.Gt, ast.NotEq)):
+                out.append((n.id, 'F'))
+            elif isinstance(a.ops[0], ast.Eq):
+                out.append((n.id, 'T'))
+    return out
+
+
+def _reads_container(node, name):
+    """the cfg node reads the container other than by collecting into it,
+    testing it for emptiness or logging it"""
+    a = node.ast
+    if a is None or node.kind in ('while', 'dispatch', 'handler', 'join'):
+        return False
+    if node.kind == 'for':
+        roots = [a.iter]
+    elif node.kind == 'with':
+        roots = [i.context_expr for i in a.items]
+    else:
+        roots = [a]
+        if node.kind == 'stmt' and _is_log_stmt(a):
+            return False
+    own = set()
+    if node.kind == 'stmt':
+        for base, val, acc in _collects(a):
+            if base == name:
+                own |= {id(x) for x in walk(acc)}
+    for r in roots:
+        for x in walk(r):
+            if isinstance(x, ast.Name) and x.id == name and \
+                    isinstance(x.ctx, ast.Load) and id(x) not in own:
+                return True
+    return False
+
+
+def r05_16(prog, rep, rid='R05.16'):
+    rep.rule(rid, 'things a method received (bulk of a work callback, result '
+             'of a queue get) and collects in a fresh local container are '
+             'read again (handed on, queued, stored, iterated) on every '
+             'normal path to the return, or the container is known to be '
+             'empty there', minimum=10)
+    comp = prog.cls(*COMP)
+    rows = route_table(prog)
+    for c, f in all_methods(prog):
+        if comp not in prog.mro(c):
+            continue
+        g = None
+        done = set()
+        fresh = None
+        for n0 in walk(f.node):
+            if not isinstance(n0, (ast.Expr, ast.Assign, ast.AugAssign)):
+                continue
+            if isinstance(n0, ast.Expr) and not (
+                    isinstance(n0.value, ast.Call) and
+                    isinstance(n0.value.func, ast.Attribute) and
+                    n0.value.func.attr in ('append', 'add', 'extend')):
+                continue
+            if isinstance(n0, ast.Assign) and not (
+                    len(n0.targets) == 1 and
+                    isinstance(n0.targets[0], ast.Subscript)):
+                continue
+            cols = [x for x in _collects(n0)
+                    if isinstance(x[1], ast.Name) or _thing_names(x[1])]
+            if not cols:
+                continue
+            if fresh is None:
+                fresh = _fresh_containers(f)
+            cols = [x for x in cols if x[0] in fresh]
+            if not cols:
+                continue
+            if g is None:
+                g = cfg_of(f)
+                smap = _smap(g)
+            node = smap.get(id(n0))
+            if node is None or node.kind != 'stmt' or not node.loops:
+                continue
+            for base, val, acc in cols:
+                if (base, node.id) in done:
+                    continue
+                names = [val.id] if isinstance(val, ast.Name) \
+                    else _thing_names(val)
+                if not names or not any(
+                        _received(prog, rows, c, f, g, node.id, x)
+                        for x in names):
+                    continue
+                done.add((base, node.id))
+                rep.saw(f)
+                readers = [m.id for m in g.nodes
+                           if _reads_container(m, base)]
+                r = g.reachable(
+                    [e.dst for e in g.succ[node.id] if e.label != 'exc'],
+                    skip_nodes=readers, skip_edges=_empty_edges(g, base),
+                    labels={'next', 'T', 'F', 'iter', 'done'})
+                ok = g.exit.id not in r
+                rep.check(ok, rid, f, 'what `%s` collects in %r is read '
+                          'again on every path to the return' % (
+                              short(n0, 40), base),
+                          construct='%s [collected things leave the method]'
+                          % base, message='%s: `%s` collects things this '
+                          'method received in the local container %r, but a '
+                          'normal path from there to the return neither '
+                          'reads %r again (hand-on, queue put, store, '
+                          'iteration) nor leaves a test of %r by its empty '
+                          'edge: the things collected in it are dropped when '
+                          'the method returns and never reach a final state'
+                          % (f.qual, short(n0, 50), base, base, base),
+                          loc=f.loc(n0),
+                          history='a bulk for which only %r gets entries '
+                          '(e.g. only tasks for a raptor master, nothing to '
+                          'place locally): the method returns on the path '
+                          'that skips the code which hands %r on'
+                          % (base, base))
+
+
+# ------------------------------------------------------------------------------
+# R05.17  a thing is not handed on once per iteration of a loop that does not
+#         iterate over things
+#
+# `advance(x, .., push=True)` puts x into the next component's queue, an
+# advance to a final state publishes the final state: doing either twice for
+# the same x gives the task two lives (executed twice) or two final states.
+# Inside a loop the same statement runs again; that is fine only if x is
+# another thing then - the loop (or a statement of its body) re-binds x or
+# changes its content between two executions of the hand-on.
+#
+def _binds(node, name):
+    """the cfg node re-binds the local `name` or changes the content of the
+    container it names"""
+    a = node.ast
+    if a is None:
+        return False
+    if node.kind == 'for':
+        return name in stores_in_target(a.target)
+    if node.kind == 'with':
+        return any(i.optional_vars is not None and
+                   name in stores_in_target(i.optional_vars) for i in a.items)
+    if node.kind not in ('stmt', 'test'):
+        return False
+    for n in walk(a):
+        if isinstance(n, ast.Name) and n.id == name and \
+                isinstance(n.ctx, (ast.Store, ast.Del)):
+            return True
+    for kind, tgt, n in I.stores(a):
+        # membership changes of a list of things: x.clear(), x.pop(),
+        # x.remove(t), x.append(t), del x[:], del x[0], x[:] = []; a task
+        # dict stays the same thing whatever fields are written or deleted
+        # (x['k'] = v, del x['k'], x.pop('k'), x.update(..))
+        if kind == 'mutate':
+            if not (isinstance(tgt, ast.Name) and tgt.id == name):
+                continue
+            if n.func.attr not in ('clear', 'pop', 'remove', 'append',
+                                   'extend', 'insert'):
+                continue
+            if n.func.attr == 'pop' and n.args and \
+                    isinstance(n.args[0], ast.Constant) and \
+                    isinstance(n.args[0].value, str):
+                continue
+            return True
+        if kind in ('del', 'assign'):
+            if not (isinstance(tgt, ast.Subscript) and
+                    isinstance(tgt.value, ast.Name) and
+                    tgt.value.id == name):
+                continue
+            if isinstance(tgt.slice, ast.Constant) and \
+                    isinstance(tgt.slice.value, str):
+                continue
+            if kind == 'assign' and not isinstance(tgt.slice, ast.Slice):
+                continue
+            return True
+    return False
+
+
+def _thing_names(e):
+    """local names a hand-on's thing argument consists of: x, [x], [x, y]"""
+    if isinstance(e, ast.Name):
+        return [e.id]
+    if isinstance(e, (ast.List, ast.Tuple)) and e.elts and \
+            all(isinstance(x, ast.Name) for x in e.elts):
+        return [x.id for x in e.elts]
+    return []
+
+
+def r05_17(prog, rep, rid='R05.17'):
+    rep.rule(rid, 'a pushing or final hand-on inside a loop hands on another '
+             'thing in every iteration (its thing is re-bound or changed '
+             'between two executions)', minimum=15)
+    final = set(prog.const('states.py', 'FINAL'))
+    comp = prog.cls(*COMP)
+    for c, f in all_methods(prog):
+        if comp not in prog.mro(c):
+            continue
+        sites = [call for call in calls_in(f.node) if I.is_handon(call)]
+        if not sites:
+            continue
+        g = cfg_of(f)
+        smap = _smap(g)
+        for call in sites:
+            n = smap.get(id(call))
+            if n is None or not n.loops:
+                continue
+            names = _thing_names(I.handon_thing(call))
+            if not names:
+                continue
+            h = prog.resolve_call(f, call, c)
+            hp = [x for x in h.params if x != 'self'] if h is not None else []
+            push = kwarg(call, 'push', hp.index('push') if 'push' in hp
+                         else None)
+            if push is None and h is not None and 'push' in hp:
+                a = h.node.args
+                pn = [x.arg for x in a.posonlyargs + a.args]
+                d = dict(zip(pn[len(pn) - len(a.defaults):], a.defaults))
+                push = d.get('push')
+            pushes = push is not None and not (
+                isinstance(push, ast.Constant) and not push.value)
+            st = I.handon_state(prog, f, call)
+            is_final = st is not None and st is not UNKNOWN and st in final
+            if not pushes and not is_final:
+                continue
+            rep.saw(f)
+            succ = [e.dst for e in g.succ[n.id] if e.label != 'exc']
+            again = []
+            for name in names:
+                stop = [m.id for m in g.nodes if _binds(m, name)]
+                if n.id in stop:
+                    continue
+                r = g.reachable(succ, skip_nodes=stop) if succ else set()
+                if n.id in r:
+                    again.append(name)
+            loop = g.nodes[n.loops[-1]]
+            hdr = 'loop'
+            if isinstance(loop.ast, ast.For):
+                hdr = 'for %s in %s' % (unparse(loop.ast.target),
+                                        short(loop.ast.iter, 40))
+            elif isinstance(loop.ast, ast.While):
+                hdr = 'while %s' % short(loop.ast.test, 40)
+            rep.check(not again, rid, f, '`%s` in the loop `%s` hands on '
+                      'another thing in every iteration' % (
+                          short(call, 40), hdr),
+                      construct=call, message='%s: `%s` is inside the loop '
+                      '`%s`, but %s is neither re-bound nor changed between '
+                      'two executions of it: with two or more iterations the '
+                      'same task is %s once per iteration - it is executed '
+                      'more than once / gets more than one final state, and '
+                      'it is handed on before the remaining iterations have '
+                      'done their work' % (
+                          f.qual, short(call, 60), hdr,
+                          ' / '.join('`%s`' % x for x in again),
+                          'pushed to the next component' if pushes
+                          else 'advanced to %s' % st),
+                      loc=f.loc(call),
+                      history='a task for which the loop runs twice (two '
+                      'staging directives, two ranks, ...): it is handed on '
+                      'twice; if the second iteration fails it is FAILED and '
+                      'runs all the same')
+
+
+# ------------------------------------------------------------------------------
 #
 def run(prog, rep, tier):
     rep.decided = ('route table: every pushing hand-on to a non-final state '
@@ -3247,6 +4041,10 @@ def run(prog, rep, tier):
     rep.attempt(r05_11, prog, rep)
     rep.attempt(r05_12, prog, rep)
     rep.attempt(r05_13, prog, rep)
+    rep.attempt(r05_14, prog, rep)
+    rep.attempt(r05_15, prog, rep)
+    rep.attempt(r05_16, prog, rep)
+    rep.attempt(r05_17, prog, rep)
     # exactly one final state when process exit and cancel coincide
     from .c07 import r07_2
     rep.attempt(r07_2, prog, rep, rid='R07.2')
@@ -3746,4 +4544,171 @@ SILENT += [
          "                    only_last = target in [rps.CANCELED, rps.FAILED]\n"
          "                    if only_last:\n"
          "                        passed = passed[len(passed) - 1:]\n")]),
+]
+
+
+# ------------------------------------------------------------------------------
+# round 5: R05.5 in early-return form, R05.14 .. R05.17
+#
+_R5_AGENT = (
+    "        if state in [rps.FAILED, rps.CANCELED]:\n"
+    "\n"
+    "            # final state is handled on client side - hand task over to tmgr\n"
+    "            for thing in things:\n"
+    "                thing['target_state'] = state\n"
+    "                thing['control']      = 'tmgr_pending'\n"
+    "                thing['$all']         = True\n"
+    "\n"
+    "              # FIXME: something like this should be done on `stage_on_error`\n"
+    "              # if thing['description'].get('stage_on_error'):\n"
+    "              #     thing['state'] = rps.TMGR_STAGING_OUTPUT_PENDING\n"
+    "              # else:\n"
+    "              #     thing['state'] = state\n"
+    "\n"
+    "            publish = True\n"
+    "            push    = False\n"
+    "\n"
+    "        super().advance(things=things, state=state, publish=publish, push=push,\n"
+    "                        qname=qname, ts=ts, fwd=fwd, prof=prof)\n")
+_R5_HANDBACK = ("            thing['target_state'] = state\n"
+                "            thing['control']      = 'tmgr_pending'\n"
+                "            thing['$all']         = True\n")
+
+
+def _r5_early(pub='True', psh='False', rec=_R5_HANDBACK, other_push='push'):
+    """AgentComponent.advance in early-return form (seed C16-r10)"""
+    return (
+        "        if state not in [rps.FAILED, rps.CANCELED]:\n"
+        "            return super().advance(things=things, state=state, publish=publish,\n"
+        "                                   push=%s, qname=qname, ts=ts, fwd=fwd,\n"
+        "                                   prof=prof)\n"
+        "\n"
+        "        # final state is handled on client side - hand task over to tmgr\n"
+        "        for thing in things:\n"
+        "%s\n"
+        "        super().advance(things=things, state=state, publish=%s, push=%s,\n"
+        "                        qname=qname, ts=ts, fwd=fwd, prof=prof)\n"
+        % (other_push, rec, pub, psh))
+
+
+_R5_PROXY_OUT = "        self.advance(msg, publish=False, push=True, qname=self._sid)\n"
+_R5_TI_ADV = "        self.advance(tasks, state, publish=True, push=push, qname=pid)\n"
+_R5_EARLY = ("                        if pid not in self._early:\n"
+             "                            self._early[pid] = list()\n"
+             "                        self._early[pid].append(task)\n")
+_R5_RET = ("        if not to_schedule:\n"
+           "            # no resource change, no activity\n"
+           "            return None, False\n"
+           "\n")
+_R5_FWD = ("        # forward raptor tasks to their designated raptor\n"
+           "        if to_raptor:\n")
+_R5_AI_FIN = ("        # all staging is done -- pass on to the scheduler\n"
+              "        self.advance(task, rps.AGENT_SCHEDULING_PENDING, publish=True, push=True)\n")
+_R5_TO_FIN = ("        # all staging is done -- at this point the task is final\n"
+              "        task['state'] = task['target_state']\n"
+              "        self.advance(task, publish=True, push=True)\n")
+
+MUTATIONS += [
+    # R05.5, early-return form
+    dict(name='R05.5 early-return form: the caller\'s push flag passed on for FAILED/CANCELED', rules=('R05.5',), edits=[
+        (_U, _R5_AGENT, _r5_early(psh='push'))]),
+    dict(name='R05.5 early-return form: the caller\'s publish flag passed on for FAILED/CANCELED', rules=('R05.5',), edits=[
+        (_U, _R5_AGENT, _r5_early(pub='publish'))]),
+    dict(name='R05.5 early-return form: $all not set', rules=('R05.5',), edits=[
+        (_U, _R5_AGENT, _r5_early(rec=_R5_HANDBACK.replace("            thing['$all']         = True\n", "")))]),
+    dict(name='R05.5 early-return form: the other states are always pushed', rules=('R05.5',), edits=[
+        (_U, _R5_AGENT, _r5_early(other_push='True'))]),
+    # R05.14
+    dict(name='R05.14 agent returns executed tasks on the unnamed sub-queue (seed C05-h2)', rules=('R05.14',), edits=[
+        (_A0, _R5_PROXY_OUT, "        self.advance(msg, publish=False, push=True)\n")]),
+    dict(name='R05.14 agent returns executed tasks under the pilot id', rules=('R05.14',), edits=[
+        (_A0, _R5_PROXY_OUT, "        self.advance(msg, publish=False, push=True, qname=self._pid)\n")]),
+    dict(name='R05.14 client input stager sends tasks to the unnamed sub-queue', rules=('R05.14',), edits=[
+        (_TI, _R5_TI_ADV, "        self.advance(tasks, state, publish=True, push=push)\n")]),
+    dict(name='R05.14 a caller of _advance_tasks leaves the pilot id out', rules=('R05.14',), edits=[
+        (_TI, "                self._advance_tasks(no_staging_tasks[pid], pid)\n", "                self._advance_tasks(no_staging_tasks[pid])\n")]),
+    dict(name='R05.14 agent reads the unnamed sub-queue of the proxy queue', rules=('R05.14',), edits=[
+        (_A0, "                            qname=self._pid,\n", "")]),
+    dict(name='R05.14 client output stager reads the unnamed sub-queue', rules=('R05.14',), edits=[
+        (_TO, "                            qname=self._session.uid,\n", "")]),
+    dict(name='R05.14 agent pushes new tasks into a named sub-queue of its input stager', rules=('R05.14',), edits=[
+        (_A0, "        self.advance(to_advance, publish=False, push=True)\n", "        self.advance(to_advance, publish=False, push=True, qname=self._pid)\n")]),
+    # R05.15
+    dict(name='R05.15 early-bound task appended to the default of dict.get (seed C05-h1)', rules=('R05.15',), edits=[
+        (_TS, _R5_EARLY, "                        self._early.get(pid, list()).append(task)\n")]),
+    dict(name='R05.15 early-bound task appended to `get(pid) or list()`', rules=('R05.15',), edits=[
+        (_TS, _R5_EARLY, "                        (self._early.get(pid) or list()).append(task)\n")]),
+    dict(name='R05.15 early-bound task appended to a local that holds the default of dict.get', rules=('R05.15',), edits=[
+        (_TS, _R5_EARLY, "                        early = self._early.get(pid, [])\n                        early.append(task)\n")]),
+    # R05.16
+    dict(name='R05.16 nothing-to-schedule return in front of the raptor forwarding (seed C05-h5)', rules=('R05.16',), edits=[
+        (_SB, _R5_RET, ""), (_SB, _R5_FWD, _R5_RET + _R5_FWD)]),
+    dict(name='R05.16 same early return spelled with len()', rules=('R05.16',), edits=[
+        (_SB, _R5_RET, ""), (_SB, _R5_FWD, "        if len(to_schedule) == 0:\n            return None, False\n\n" + _R5_FWD)]),
+    dict(name='R05.16 agent output stager returns early when no task needs staging', rules=('R05.16',), edits=[
+        (_AO, "        if no_staging_tasks:\n", "        if not staging_tasks:\n            return\n\n        if no_staging_tasks:\n")]),
+    # R05.17
+    dict(name='R05.17 hand-on to the scheduler inside the loop over the directives (seed C05-h3)', rules=('R05.17',), edits=[
+        (_AI, _R5_AI_FIN, "            self.advance(task, rps.AGENT_SCHEDULING_PENDING, publish=True,\n                               push=True)\n")]),
+    dict(name='R05.17 same, the task wrapped in a list', rules=('R05.17',), edits=[
+        (_AI, _R5_AI_FIN, "            self.advance([task], rps.AGENT_SCHEDULING_PENDING, publish=True,\n                               push=True)\n")]),
+    dict(name='R05.17 client output stager finishes the task once per directive', rules=('R05.17',), edits=[
+        (_TO, _R5_TO_FIN, "            task['state'] = task['target_state']\n            self.advance(task, publish=True, push=True)\n")]),
+]
+
+SILENT += [
+    # R05.5
+    dict(name='R05.5 AgentComponent.advance in early-return form (seed C16-r10)', edits=[
+        (_U, _R5_AGENT, _r5_early())]),
+    dict(name='R05.5 early-return form, forced flags left to the defaults of BaseComponent.advance', edits=[
+        (_U, _R5_AGENT, _r5_early().replace("publish=True, push=False,\n                        qname", "qname"))]),
+    dict(name='R05.5 if/else form: both arms delegate', edits=[
+        (_U, _R5_AGENT, _R5_AGENT.replace(
+            "            publish = True\n            push    = False\n\n"
+            "        super().advance(things=things, state=state, publish=publish, push=push,\n"
+            "                        qname=qname, ts=ts, fwd=fwd, prof=prof)\n",
+            "            super().advance(things=things, state=state, publish=True,\n"
+            "                            push=False, qname=qname, ts=ts, fwd=fwd, prof=prof)\n"
+            "        else:\n"
+            "            super().advance(things=things, state=state, publish=publish,\n"
+            "                            push=push, qname=qname, ts=ts, fwd=fwd, prof=prof)\n"))]),
+    # R05.14
+    dict(name='R05.14 sub-queue name passed by position', edits=[
+        (_A0, _R5_PROXY_OUT, "        self.advance(msg, None, False, True, self._sid)\n")]),
+    dict(name='R05.14 sub-queue name held in a local', edits=[
+        (_A0, _R5_PROXY_OUT, "        sub = self._sid\n        self.advance(msg, publish=False, push=True, qname=sub)\n")]),
+    dict(name='R05.14 sub-queue named through the session object', edits=[
+        (_A0, _R5_PROXY_OUT, "        self.advance(msg, publish=False, push=True, qname=self.session.uid)\n")]),
+    dict(name='R05.14 return route in a helper whose qname parameter defaults to the session id', edits=[
+        (_A0, _R5_PROXY_OUT, "        self._to_client(msg)\n\n    def _to_client(self, tasks, qname=None):\n        if not qname:\n            qname = self._sid\n        self.advance(tasks, publish=False, push=True, qname=qname)\n")]),
+    # R05.15
+    dict(name='R05.15 early-bound tasks kept with setdefault', edits=[
+        (_TS, _R5_EARLY, "                        self._early.setdefault(pid, list()).append(task)\n")]),
+    # R05.16
+    dict(name='R05.16 early return when both collections are empty', edits=[
+        (_SB, _R5_FWD, "        if not to_schedule and not to_raptor:\n            return None, False\n\n" + _R5_FWD)]),
+    dict(name='R05.16 emptiness of the raptor collection tested with len()', edits=[
+        (_SB, _R5_FWD, "        # forward raptor tasks to their designated raptor\n        if len(to_raptor) > 0:\n")]),
+    dict(name='R05.16 raptor forwarding in early-skip form around a helper', edits=[
+        (_SB, _R5_FWD, "        self._forward_raptor(to_raptor)\n\n        if to_raptor:\n"),
+        (_SB, "    def _schedule_incoming(self):\n", "    def _forward_raptor(self, by_name):\n        if not by_name:\n            return\n        self._log.debug('raptor: %d', len(by_name))\n\n    def _schedule_incoming(self):\n")]),
+    # R05.17
+    dict(name='R05.17 hand-on in the else clause of the loop over the directives', edits=[
+        (_AI, _R5_AI_FIN, "        else:\n            self.advance(task, rps.AGENT_SCHEDULING_PENDING, publish=True, push=True)\n")]),
+    dict(name='R05.17 hand-on in a loop over the literal list of the task', edits=[
+        (_AI, _R5_AI_FIN, "        for t in [task]:\n            self.advance(t, rps.AGENT_SCHEDULING_PENDING, publish=True, push=True)\n")]),
+    dict(name='R05.17 hand-on in a helper called after the loop', edits=[
+        (_AI, _R5_AI_FIN, "        self._staged(task)\n\n    def _staged(self, task):\n        self.advance(task, rps.AGENT_SCHEDULING_PENDING, publish=True, push=True)\n")]),
+]
+
+MUTATIONS += [
+    dict(name='R05.4b _handle_task finishes the task inside the loop over the directives', rules=('R05.4b',), edits=[
+        (_TO, _R5_TO_FIN, "            task['state'] = task['target_state']\n            self.advance(task, publish=True, push=True)\n")]),
+]
+
+SILENT += [
+    dict(name='R05.4b/R05.17 final hand-on of _handle_task in a loop over the literal list of the task', edits=[
+        (_TO, _R5_TO_FIN, "        task['state'] = task['target_state']\n        for t in [task]:\n            self.advance(t, publish=True, push=True)\n")]),
+    dict(name='R05.4b/R05.17 final hand-on of _handle_task in the else clause of the directive loop', edits=[
+        (_TO, _R5_TO_FIN, "        else:\n            task['state'] = task['target_state']\n            self.advance(task, publish=True, push=True)\n")]),
 ]
